@@ -99,6 +99,7 @@ class Term:
         self.undef = 0
         self.rows = 1 << 30      # rows available from the origin; LF on the last one scrolls
         self.scrolled = 0        # number of scrolls so far
+        self.minrow = 0          # smallest row the cursor visited (oracle only)
         self.maxrow = 0          # largest row the cursor visited / wrote (oracle only)
         self.written = set()     # rows in which a cell was written (oracle only)
         self.layers = []
@@ -201,6 +202,7 @@ class Term:
         else:
             self.undef = 1
         self.maxrow = max(self.maxrow, self.cy)
+        self.minrow = min(self.minrow, self.cy)
 
     # ED: every row below the cursor row becomes blank in the current pen.  The
     # rows are unbounded, so each ED leaves a "blank below row y" layer.
@@ -237,6 +239,7 @@ class Term:
         self.cy -= dy
         self.written = set()
         self.maxrow = self.cy
+        self.minrow = self.cy
 
     def dump(self, nrows):
         rows = []
